@@ -29,7 +29,7 @@ func init() {
 		Prop: "C19",
 		Explanation: "Optionality and file-safety of the embedding feature decided from the SSA form: (O-1) Database.embeddingIndex is stored only with the result of a LoadWordVectors call on the success side of its error test; every use of the field as a receiver is behind a non-nil test of the same (memory-versioned) value; applySemanticBoost is called only under HasEmbeddings(), which is exactly embeddingIndex != nil; nothing else reachable from SearchUniversal touches embedding code; " +
 			"(O-2) the only write to a score in applySemanticBoost is Score = Score * (1 + alpha*sim) under sim >= SemanticMinScore with constants 0 <= alpha < inf and SemanticMinScore >= 0 (so the factor is >= 1 and, given |cos| <= 1, <= 1+alpha), every path that can have written a score passes the Score-descending sort before returning, early exits wrote nothing; (O-3) the division in CosineSimilarity is unreachable unless len(a) == len(b) != 0 and both norms are non-zero, each guard exit returns the constant 0, and b is indexed only under the length equality; " +
-			"(O-4) every integer decoded from a file header by binary.Read that reaches a make size or capacity is bounded first: by its type (<= 16 bits), by an equality test with a trusted value, or by a dominating upper-bound test (inline or in a validator function whose failure is returned) against a quantity not taken from the header; every integer division in the loaders and their helpers has a divisor proven non-zero for every receiver and file (receiver fields are not trusted: Index.Dimension is exported); (O-5) every read/open error in the two loaders is returned. Range and symmetry of the cosine as arithmetic, and actual memory use, are NOT decided.",
+			"(O-4) every integer decoded from a file header by binary.Read that reaches a make size or capacity is bounded first: by its type (<= 16 bits), by an equality test with a trusted value, or by a dominating upper-bound test (inline or in a validator function whose failure is returned) against a quantity not taken from the header; every integer division in the loaders and their helpers has a divisor proven non-zero for every receiver and file (receiver fields are not trusted: Index.Dimension is exported); (O-5) every read/open error in the two loaders is returned; (O-6) every implicit run-time check (index, slice bound, make size, integer division, type assertion) in package embedding and in the database's loader and semantic stage is proven safe for every file content and every index value, half-loaded ones included, by the prover of C10 O-6. Range and symmetry of the cosine as arithmetic, and actual memory use, are NOT decided.",
 		NotDecided:  []string{"|cos| <= 1 and symmetry as floating-point arithmetic", "real memory consumption", "that the semantic stage's factor bound holds for similarities outside [-1,1] (would need the arithmetic fact)"},
 		Assumptions: []string{"encoding/binary.Read fills exactly the fixed-size target or returns an error", "sort.Slice with a Score-descending comparator leaves the slice in non-increasing score order"},
 		Run:         runC19,
@@ -49,6 +49,52 @@ func runC19(c *Ctx) {
 	c19Boost(c, sx)
 	c19Cosine(c, sx)
 	c19Alloc(c, sx)
+	c19Implicit(c)
+}
+
+// c19Implicit: O-6. "never crashes": every implicit run-time check (index,
+// slice bound, make size, integer division, type assertion) in the shipped
+// functions of package embedding and in the database functions that load the
+// files is proven safe for all file contents and all indexes, hand-built or
+// half-loaded, by the prover C10 O-6 uses for the search path.
+func c19Implicit(c *Ctx) {
+	r := c.R
+	r.Rule("O-6", "no implicit run-time check can fail in the embedding code: every index, slice bound, make size, integer division and single-result type assertion in package embedding and in the loader of the database is proven safe for all inputs (same prover as C10 O-6)")
+	roots := c10Roots(c)
+	for _, spec := range [][3]string{
+		{"internal/database", "Database", "LoadEmbeddings"},
+		{"internal/embedding", "Index", "LoadWordVectors"},
+		{"internal/embedding", "Index", "LoadCommandEmbeddings"},
+	} {
+		if fn := c.P.Func(spec[0], spec[1], spec[2]); fn != nil {
+			roots = append(roots, fn)
+		}
+	}
+	scope := reachClosure(c, roots)
+	skip := map[*ssa.Function]bool{}
+	n := 0
+	for _, fn := range scope {
+		pk := c.P.PkgOfFunc(fn)
+		in := pk != nil && strings.HasSuffix(pk.PkgPath, "internal/embedding")
+		if !in && pk != nil && pk.PkgPath == dbPkg {
+			// the loader and the semantic stage of the database
+			top := fn
+			for top.Parent() != nil {
+				top = top.Parent()
+			}
+			switch top.Name() {
+			case "LoadEmbeddings", "HasEmbeddings", "applySemanticBoost":
+				in = true
+			}
+		}
+		if !in {
+			skip[fn] = true
+		} else if fn.Synthetic == "" {
+			n++
+		}
+	}
+	r.Floor("O-6", "functions of the embedding code", n, 6)
+	c10ImplicitChecks(c, "O-6", roots, scope, skip, nil)
 }
 
 // nilGuardCut returns the edges on which the versioned expression s is known
@@ -418,12 +464,20 @@ func c19BoostValue(fn *ssa.Function, f *symx.Fn, val ssa.Value, isOld func(ssa.V
 	}
 	// the factor may be computed by a helper of the repository: each of its
 	// results is the constant 1 or 1 + alpha*<its parameter> behind the guard
-	if hc, isCall := factor.(*ssa.Call); isCall && len(hc.Common().Args) == 1 {
-		if g := hc.Common().StaticCallee(); g != nil && g.Blocks != nil && len(g.Params) == 1 && strings.HasPrefix(g.Pkg.Pkg.Path(), load.ModulePath) {
+	// (or the first of two results: the factor and whether to apply it)
+	fcall, fidx := factor, 0
+	if ex, isEx := factor.(*ssa.Extract); isEx {
+		fcall, fidx = ex.Tuple, ex.Index
+	}
+	if hc, isCall := fcall.(*ssa.Call); isCall && len(hc.Common().Args) == 1 {
+		if g := hc.Common().StaticCallee(); g != nil && g.Blocks != nil && len(g.Params) == 1 && g.Pkg != nil && strings.HasPrefix(g.Pkg.Pkg.Path(), load.ModulePath) {
 			gf := f.Ctx().Of(g)
 			nBoost := 0
 			for _, ret := range ssau.ReturnsOf(g) {
-				rv := ssau.ResultValue(ret, 0)
+				if fidx >= len(ret.Results) {
+					return "the factor is not a result of the helper that computes it", "", 0
+				}
+				rv := ssau.ResultValue(ret, fidx)
 				if k, isC := ssau.ConstFloat(rv); isC && k == 1 {
 					continue
 				}
